@@ -106,6 +106,11 @@ add("C18", "exploration",
     "loads reached only through non-kept helpers are optional; dotted hints may end at any kept node first reached by a sibling call that takes arguments",
     "runtime monitoring: exported-artifact monitor (graph parsed back) against generator ground truth + with/without differential", "E1-pipeline")
 
+add("C06", "fault_enumeration",
+    "Crash-point enumeration on the real code: 12 scenarios (cold/warm first keeps of text, pickle, bytes, None; re-keep with changed and same code; nested eval with shared directory; store creation explicit and default; path commit with existing blob; second data view) run under a file-system shim; every operation boundary (stat, mkdir, open, each half of each write, close, rename, symlink, ...) found by a dry run is a crash point where the process is terminated with os._exit(137); fresh processes then load previously committed paths (old or new value), re-evaluate (reference value) and load everything. Exhaustive over the boundaries of these scenarios.",
+    "kill -9 semantics (completed operations durable); boundaries at Python-visible operation granularity; native writers (parquet) not split",
+    "runtime monitoring: fault injection at every FS-operation boundary (failpoint shim) + recovery-process oracle", "E3-fs")
+
 NOT_YET = {}
 
 
